@@ -27,7 +27,7 @@ from pathlib import Path
 import vlib
 
 CLANG = "clang++-14"
-VERSION = "10"          # bump to invalidate the cache when the extraction logic changes
+VERSION = "11"          # bump to invalidate the cache when the extraction logic changes
 
 # ---------------------------------------------------------------------------------------------------- reviewed lists
 # functions that make up the reset path of the engine.  Everything these functions call on `this` must be either in
@@ -279,6 +279,7 @@ def collect_types(n, types, owner_ptr):
         collect_types(c, types, owner_ptr)
 
 
+CONTROL = {"IfStmt", "ForStmt", "WhileStmt", "DoStmt", "SwitchStmt", "CXXForRangeStmt", "CXXTryStmt", "LabelStmt", "GotoStmt", "CompoundStmt"}
 PROLOGUE = {"read_input": "check_line"}     # resets at the top of a function, before its first call of the named method
 
 
@@ -368,6 +369,7 @@ def summarize_tu(tu, cls, owner_ptr=None):
         S = FnSummary()
         inits = []
         prologue = None
+        top = None
         for x in d.get("inner", []):
             if x.get("kind") == "CXXCtorInitializer":
                 nm = x.get("anyInit", {}).get("name")
@@ -379,6 +381,11 @@ def summarize_tu(tu, cls, owner_ptr=None):
                     walk(c, S, owner_ptr)
             elif x.get("kind") == "CompoundStmt":
                 walk(x, S, owner_ptr)
+                T = FnSummary()
+                for st in x.get("inner", []):
+                    if st.get("kind") not in CONTROL:
+                        walk(st, T, owner_ptr)
+                top = dict(resets=sorted(T.resets), mcalls=sorted(T.mcalls))
                 if d.get("name") in PROLOGUE:
                     P = FnSummary()
                     for st in x.get("inner", []):
@@ -401,10 +408,14 @@ def summarize_tu(tu, cls, owner_ptr=None):
         e["mcalls"] |= S.mcalls
         if prologue:
             e["prologue"] = prologue
+        if top:
+            e.setdefault("top_resets", set()).update(top["resets"])
+            e.setdefault("top_mcalls", set()).update(top["mcalls"])
         e["where"].append(f"{Path(loc.get('file', str(tu))).name}:{loc.get('line', d.get('range', {}).get('begin', {}).get('line', 0))}")
     return dict(fields=fields, bases=bases, types=types,
                 methods={k: dict(resets=sorted(v["resets"]), writes=sorted(v["writes"]), calls=sorted(v["calls"]),
-                                 mcalls=sorted(v["mcalls"]), where=v["where"], prologue=v.get("prologue"))
+                                 mcalls=sorted(v["mcalls"]), where=v["where"], prologue=v.get("prologue"),
+                                 top_resets=sorted(v.get("top_resets", [])), top_mcalls=sorted(v.get("top_mcalls", [])))
                          for k, v in methods.items()})
 
 
@@ -477,9 +488,9 @@ def merged(res, cls):
         for k, v in s["types"].items():
             types.setdefault(k, v)
         for k, v in s["methods"].items():
-            e = M.setdefault(k, dict(resets=set(), writes=set(), calls=set(), mcalls=set(), where=[]))
-            for q in ("resets", "writes", "calls", "mcalls"):
-                e[q] |= set(v[q])
+            e = M.setdefault(k, dict(resets=set(), writes=set(), calls=set(), mcalls=set(), top_resets=set(), top_mcalls=set(), where=[]))
+            for q in ("resets", "writes", "calls", "mcalls", "top_resets", "top_mcalls"):
+                e[q] |= set(v.get(q) or [])
             e["where"] += v["where"]
             if v.get("prologue"):
                 e["prologue"] = v["prologue"]
@@ -585,8 +596,8 @@ def policy():
     out = {}
     for m in re.finditer(r"^def (\w+) : List \(String × String\) :=\n(.*?)(?=^\S|\Z)", src, re.M | re.S):
         out[m.group(1)] = re.findall(r'\("((?:[^"\\]|\\.)*)",\s*"((?:[^"\\]|\\.)*)"\)', m.group(2))
-    for k in ("healed", "scratch", "fileNames", "ioHealed", "wrapperClass"):
-        if k not in out or not out[k]:
+    for k in ("healed", "scratch", "fileNames", "ioHealed", "wrapperClass", "healedBy", "scratchWriter", "ioHealedBy"):
+        if k not in out or (not out[k] and k not in ("scratchWriter", "ioHealedBy", "healedBy")):
             raise RuntimeError(f"ResetPolicy.lean: list {k} not found")
     return out
 
@@ -739,6 +750,35 @@ def analyse(res, errors):
                 percall=percall, ctor=set(ctor["resets"]), known=known, keys=keys, M=M, WM=WM, types=types, fields=fields)
 
 
+def spec_holds(a, member, spec):
+    """does the code have the shape a policy entry claims?  spec = top:F | any:F | writes:F | topcall:F:M | call:F:M"""
+    M = a["M"]
+    w = spec.split(":")
+    fn = M.get(w[1]) if len(w) > 1 else None
+    if fn is None:
+        return False
+    if w[0] == "top":
+        return member in fn["top_resets"]
+    if w[0] == "any":
+        return member in fn["resets"]
+    if w[0] == "writes":
+        return member in fn["writes"]
+    if w[0] == "topcall":
+        return f"{member}.{w[2]}" in fn["top_mcalls"]
+    if w[0] == "call":
+        return f"phrq_io->{w[2]}" in fn["mcalls"]
+    return False
+
+
+def policy_evidence(a):
+    ev = []
+    for key in ("healedBy", "scratchWriter", "ioHealedBy"):
+        for member, spec in a["pol"].get(key, []):
+            if spec_holds(a, member, spec):
+                ev.append((member, spec))
+    return ev
+
+
 def covered_py(a, p):
     R = a["A"] | a["C"] | a["U"] | a["S"]
     if p in R or p.split(".")[0] in R:
@@ -818,6 +858,12 @@ def emit_lean(a):
         if n in expl or n.split(".")[0] in expl:
             dm |= 1 << idx[n]
     L.append(f"/-- bit i set iff member i, or its parent member, is in scratchIds/healedIds/fileNamesIds/knownUnreset (checked by `dead_mask_ok`) -/\ndef deadMask : Nat := {dm}\n")
+    ev = policy_evidence(a)
+    a["policy_evidence_missing"] = [(m, sp) for key in ("healedBy", "scratchWriter", "ioHealedBy") for m, sp in a["pol"].get(key, []) if (m, sp) not in ev]
+    L.append("/-- (member, claimed code shape) pairs of ResetPolicy.healedBy / scratchWriter / ioHealedBy that the AST confirms:\n"
+             "    top:F = unconditional reset-form statement at the top level of F; any:F = reset-form anywhere in F; writes:F = F writes it;\n"
+             "    topcall:F:M = unconditional top-level call member.M() in F; call:F:M = F calls phrq_io->M -/")
+    L.append("def policyEvidence : List (String × String) :=\n  [" + ",\n   ".join(f"({lean_str(m)}, {lean_str(sp)})" for m, sp in ev) + "]\n")
     L.append(f"def unknownResetCallees : List String := {str_list(a['unknown'])}\n")
     L.append(f"def translatorErrors : List String := {str_list(a['errors'])}\n")
     # io flags
@@ -848,7 +894,8 @@ def generate(ctx=None):
                 unknown_reset_callees=a["unknown"], translator_errors=a["errors"], tus_cached=cached, tus=len(res),
                 dumped_members=len(dumped), not_dumped=skipped, lean_changed=changed,
                 io_flags=dict(readers=sorted(a["Wio"]), prologue=sorted(a["Sio"]), unload=sorted(a["Uio"])),
-                wrapper_fields=len(a["wnames"]), known_keys=sorted(a["keys"]))
+                wrapper_fields=len(a["wnames"]), known_keys=sorted(a["keys"]),
+                policy_evidence_missing=a.get("policy_evidence_missing", []))
     if ctx is not None:
         ctx.log("gen_members:", {k: info[k] for k in ("members", "init_assigned", "cleaned", "reader_written", "uncovered_readers", "unaccounted",
                                                       "unknown_reset_callees", "translator_errors", "tus_cached")})
